@@ -79,16 +79,17 @@ Section OracleIds.
     split; [reflexivity|]. apply filter_In. split; [exact Hin|]. cbn [fst] in *. rewrite E. reflexivity.
   Qed.
 
-  Theorem texamine_safe :
+  (* general bound: prevoteThr + precommitThr > W + f with f the oracle's Byzantine weight *)
+  Theorem texamine_safe_bound :
     let v := texamine batch gh c T1 T2 in
-    vd_valid v = true -> vd_static v = true -> vd_hyp v = true ->
-    total_weight (c_vals c) * 2 / 3 + 1 <= c_pc c ->
+    vd_valid v = true -> vd_static v = true ->
+    total_weight (c_vals c) + tbyz_weight (c_vals c) [T1; T2] < c_pc c + (total_weight (c_vals c) * 2 / 3 + 1) ->
     vd_safe v = true.
   Proof.
     cbv zeta. unfold texamine. fold (untag T1) (untag T2). destruct (init_store batch gh c) as [s0|e] eqn:Hinit; [|discriminate].
     destruct (run_valid batch s0 gh (untag T1)) as [s1|] eqn:R1; [|discriminate].
     destruct (run_valid batch s0 gh (untag T2)) as [s2|] eqn:R2; [|discriminate].
-    cbn [vd_valid vd_static vd_hyp vd_safe]. intros _ Hst Hhyp Hpc.
+    cbn [vd_valid vd_static vd_hyp vd_safe]. intros _ Hst Hbound.
     apply andb_prop in Hst. destruct Hst as [St1 St2].
     rewrite (run_valid_vrun batch _ s0 gh St1) in R1. rewrite (run_valid_vrun batch _ s0 gh St2) in R2.
     change (view batch gh s0 (untag T1) = Some s1) in R1. change (view batch gh s0 (untag T2) = Some s2) in R2.
@@ -109,13 +110,28 @@ Section OracleIds.
       - intros K K' [_ HK] HP Hne. split; [exact Hne|]. destruct HK as [H|H]; [left|right]; eapply prefix_trans; eauto. }
     assert (Hh : forall v, In v (map fst (c_vals c)) -> ~ In v tbyz_list -> thonest TUo v).
     { intros v Hv Hn. apply thonest_b_thonest. apply in_tbyz_list; assumption. }
-    assert (Hf : 3 * wsum (sort_desc (c_vals c)) tbyz_list < total_weight (c_vals c)) by (rewrite tbyz_weight_wsum; apply N.ltb_lt; exact Hhyp).
-    destruct (C01_static_safety_ids_one_third batch gh c s0 TUo tbyz_list Hbatch Hinit HU Hh Hf Hpc T1 T2 s1 s2
+    assert (Hf : total_weight (sort_desc (c_vals c)) + wsum (sort_desc (c_vals c)) tbyz_list < c_pc c + (total_weight (c_vals c) * 2 / 3 + 1))
+      by (rewrite tbyz_weight_wsum, total_weight_sort; exact Hbound).
+    destruct (C01_static_safety_ids batch gh c s0 TUo tbyz_list Hbatch Hinit HU Hh Hf T1 T2 s1 s2
                 (v_mhpc (s_votes s1)) (v_mhpc (s_votes s2))
                 (conj N1 (or_introl (prefix_refl T1))) (conj N2 (or_intror (prefix_refl T2)))
                 (view_run_blocks batch Hbatch gh s0 _ s1 R1) (view_run_blocks batch Hbatch gh s0 _ s2 R2) ltac:(lia) ltac:(lia)) as [H|H].
     - apply orb_true_iff. left. exact (tis_prefix_complete _ _ H).
     - apply orb_true_iff. right. exact (tis_prefix_complete _ _ H).
+  Qed.
+
+  Theorem texamine_safe :
+    let v := texamine batch gh c T1 T2 in
+    vd_valid v = true -> vd_static v = true -> vd_hyp v = true ->
+    total_weight (c_vals c) * 2 / 3 + 1 <= c_pc c ->
+    vd_safe v = true.
+  Proof.
+    cbv zeta. intros Hv Hs Hh Hpc. apply texamine_safe_bound; [exact Hv|exact Hs|].
+    assert (Hh' : 3 * tbyz_weight (c_vals c) [T1; T2] < total_weight (c_vals c)).
+    { revert Hh Hv. unfold texamine. destruct (init_store batch gh c); [|discriminate].
+      destruct (run_valid batch _ gh (map snd T1)); [|discriminate]. destruct (run_valid batch _ gh (map snd T2)); [|discriminate].
+      cbn [vd_hyp]. intros H _. apply N.ltb_lt. exact H. }
+    lia.
   Qed.
 End OracleIds.
 Print Assumptions texamine_safe.
